@@ -25,3 +25,14 @@ Theorem C01_moments_iterate :
     forall n, moments_vec law fp ms n s0 = iter_mat (R := Qc_cring) A n (moments_vec law fp ms 0 s0).
 Proof. exact moments_iter. Qed.
 Print Assumptions C01_moments_iterate.
+
+(* One executable test for Polar's whole output on a flat program (types, system, initial
+   values, closed forms): acceptance implies the closed forms are the exact moments at every n. *)
+From Polar Require Import Poly Wp.
+Theorem C01_check_pipeline_sound :
+  forall law cmom fp T ms A v F sp, cmom_ok law cmom ->
+    check_pipeline cmom fp T ms A v F sp = true ->
+    forall s0, init_ok fp T s0 ->
+    forall n, pw_eval (R := Qc_cring) F sp n = moments_vec law fp ms n s0.
+Proof. exact check_pipeline_sound. Qed.
+Print Assumptions C01_check_pipeline_sound.
